@@ -298,7 +298,16 @@ pub fn run(ctx: &Ctx, rep: &mut Report) {
         } else {
             // every third world: unusual settings of the input-text plugins (empty / longer replacement ...)
             let odd_cfg = wi % 3 == 1;
-            guard(|| crate::scen::build_world_tweak(&mut rng, &dopts, true, place, |r, p| if odd_cfg { p.randomize_input_cfg(r) }))
+            // every 32nd world asks for 14 or 15 user dictionaries (15 must be refused when loading)
+            let many = wi % 32 == 5;
+            guard(|| crate::scen::build_world_tweak(&mut rng, &dopts, true, place, |r, p| {
+                if odd_cfg {
+                    p.randomize_input_cfg(r)
+                }
+                if many {
+                    p.n_users = 14 + r.below(2);
+                }
+            }))
         };
         let world = match built {
             Ok(Ok(w)) => w,
@@ -313,6 +322,9 @@ pub fn run(ctx: &Ctx, rep: &mut Report) {
             }
         };
         rep.count("worlds", 1);
+        if world.users.len() >= 14 {
+            rep.count("worlds_with_14_or_more_user_dictionaries", 1);
+        }
         let keys = world.keys();
         let mut toks: Vec<Tok> = MODES.iter().map(|m| Tok::new(&world.dict, *m)).collect();
         let mut texts: Vec<(String, Option<bool>)> = vec![];
